@@ -175,6 +175,11 @@ theorem execOp_sameC (s : State) (me : Nat) (op : Op) (rest : List Op)
     have := (SameC.refl s).cancelR t
     cases hw : cancelR s t with
     | mk s1 b => rw [hw] at this; simp only []; exact this.finish _ _ _ _
+  | resume t =>
+    simp only [execOp]
+    have := (SameC.refl s).resume t
+    cases hw : resume s t with
+    | mk s1 b => rw [hw] at this; simp only []; exact this.finish _ _ _ _
   | exit => simp only [execOp]; exact SameC.refl s
   | throw => simp only [execOp]; exact (Woke.abort s).sameC
   | rcleanup => simp only [execOp]; exact (Woke.abort s).sameC
@@ -199,6 +204,21 @@ theorem execOp_sameC (s : State) (me : Nat) (op : Op) (rest : List Op)
   | join t => simp only [execOp]; repeat' split
               all_goals samec
 
+theorem SameC.unwindList {s X : State} (h : SameC s X) (me : Nat) (ms : List Nat) : SameC s (unwindList me ms X) := by
+  induction ms generalizing X with
+  | nil => exact h
+  | cons m ms ih =>
+    exact ih (h.trans (execOp_sameC X me (.unlock m) [] (Or.inr (by intro d now; simp))))
+
+theorem SameC.unwind {s X : State} (h : SameC s X) (me : Nat) : SameC s (unwind X me) := by
+  unfold Tbox.C18.unwind
+  split
+  · exact h.unwindList me _
+  · exact h
+
+/-- the entry function returns: Locker scopes are left (RAII scripts), `state = kDead` -/
+theorem SameC.fin {s X : State} (h : SameC s X) (me : Nat) : SameC s (fin X me) :=
+  (h.unwind me).die me
 
 theorem finish_ctl (s : State) (me : Nat) (op : Op) (rest : List Op) (res : Res) : (finish s me op rest res).2 ≠ .block := by
   unfold Tbox.C18.finish; simp only []; split <;> simp
